@@ -81,6 +81,16 @@ StrIndex(s, p) == IF Occurrences(s, p) = {} THEN -1 ELSE Min(Occurrences(s, p)) 
 StrLastIndex(s, p) == IF Occurrences(s, p) = {} THEN -1 ELSE Max(Occurrences(s, p)) - 1
 Upper(s) == [i \in DOMAIN s |-> IF s[i] >= 97 /\ s[i] <= 122 THEN s[i] - 32 ELSE s[i]]
 Lower(s) == [i \in DOMAIN s |-> IF s[i] >= 65 /\ s[i] <= 90 THEN s[i] + 32 ELSE s[i]]
+InSet(c, cs) == \E i \in DOMAIN cs : cs[i] = c
+AnyPositions(s, cs) == { i \in DOMAIN s : InSet(s[i], cs) }
+RECURSIVE TrimL(_, _), TrimR(_, _), CountFrom(_, _, _)
+TrimL(s, cs) == IF s # <<>> /\ InSet(s[1], cs) THEN TrimL(Tail(s), cs) ELSE s
+TrimR(s, cs) == IF s # <<>> /\ InSet(s[Len(s)], cs) THEN TrimR(SubSeq(s, 1, Len(s) - 1), cs) ELSE s
+(* strings.Count: non-overlapping occurrences from the left; the empty string occurs Len+1 times *)
+CountFrom(s, p, i) == IF i + Len(p) - 1 > Len(s) THEN 0
+                      ELSE IF OccursAt(s, p, i) THEN 1 + CountFrom(s, p, i + Len(p)) ELSE CountFrom(s, p, i + 1)
+StrCount(s, p) == IF p = <<>> THEN Len(s) + 1 ELSE CountFrom(s, p, 1)
+Spaces == <<32, 9, 10, 11, 12, 13>>
 RECURSIVE Digits(_)
 Digits(n) == IF n < 10 THEN <<48 + n>> ELSE Digits(n \div 10) \o <<48 + (n % 10)>>
 IntToStr(n) == IF n < 0 THEN <<45>> \o Digits(-n) ELSE Digits(n)
@@ -300,6 +310,40 @@ Pure(name, a) ==
             ELSE LET s == a[1][2]  p == a[2][2] IN
                  IF name = "strTrimPrefix" THEN (IF HasPrefix(s, p) THEN MkS(SubSeq(s, Len(p) + 1, Len(s))) ELSE a[1])
                  ELSE (IF HasSuffix(s, p) THEN MkS(SubSeq(s, 1, Len(s) - Len(p))) ELSE a[1])
+      [] name \in {"strCount", "strIndexAny", "strLastIndexAny"} ->
+            IF ~AllTags(a, <<"s", "s">>) THEN Err
+            ELSE IF SomeAny(a) THEN AnyOf("i")
+            ELSE LET s == a[1][2]  p == a[2][2]  ps == AnyPositions(s, p) IN
+                 MkI(CASE name = "strCount" -> StrCount(s, p)
+                       [] name = "strIndexAny" -> IF ps = {} THEN -1 ELSE Min(ps) - 1
+                       [] name = "strLastIndexAny" -> IF ps = {} THEN -1 ELSE Max(ps) - 1)
+      [] name = "strContainsAny" ->
+            IF ~AllTags(a, <<"s", "s">>) THEN Err
+            ELSE IF SomeAny(a) THEN AnyOf("b") ELSE MkB(AnyPositions(a[1][2], a[2][2]) # {})
+      [] name \in {"strTrim", "strTrimLeft", "strTrimRight"} ->
+            IF ~AllTags(a, <<"s", "s">>) THEN Err
+            ELSE IF SomeAny(a) THEN AnyOf("s")
+            ELSE MkS(CASE name = "strTrim" -> TrimR(TrimL(a[1][2], a[2][2]), a[2][2])
+                       [] name = "strTrimLeft" -> TrimL(a[1][2], a[2][2])
+                       [] name = "strTrimRight" -> TrimR(a[1][2], a[2][2]))
+      [] name = "strTrimSpace" ->
+            IF ~AllTags(a, <<"s">>) THEN Err ELSE IF SomeAny(a) THEN AnyOf("s") ELSE MkS(TrimR(TrimL(a[1][2], Spaces), Spaces))
+      [] name = "trunc" ->
+            IF ~AllTags(a, <<"f">>) THEN Err ELSE IF SomeAny(a) THEN AnyOf("f") ELSE <<"f", FTrunc(a[1]), 1>>
+      [] name = "mod" ->         \* math.Mod: x - y * trunc(x / y), exact on dyadic rationals; NaN for y = 0
+            IF ~AllTags(a, <<"f", "f">>) THEN Err
+            ELSE IF SomeAny(a) \/ a[2][2] = 0 THEN AnyOf("f")
+            ELSE LET xn == Abs(a[1][2]) * a[2][3]           \* |x| and |y| over the common denominator a[1][3] * a[2][3]
+                     yn == Abs(a[2][2]) * a[1][3]
+                     rn == xn % yn
+                 IN MkF(IF a[1][2] < 0 THEN -rn ELSE rn, a[1][3] * a[2][3])
+      [] name \in {"day", "month", "year", "weekday"} ->      \* model time 0 is Monday 2000-01-03 00:00 UTC
+            IF ~AllTags(a, <<"t">>) THEN Err
+            ELSE IF SomeAny(a) \/ a[1][2] \div 1440 > 27 THEN AnyOf("i")
+            ELSE MkI(CASE name = "day" -> 3 + (a[1][2] \div 1440)
+                       [] name = "month" -> 1
+                       [] name = "year" -> 2000
+                       [] name = "weekday" -> (1 + (a[1][2] \div 1440)) % 7)
       [] name \in {"minute", "hour"} ->
             IF ~AllTags(a, <<"t">>) THEN Err
             ELSE IF SomeAny(a) THEN AnyOf("i")
@@ -458,14 +502,19 @@ SigType(name, ts) ==
       [] name = "bool" -> one({"b", "s", "i", "f"}, "b")
       [] name = "string" -> one({"b", "s", "i", "f", "d"}, "s")
       [] name = "duration" -> IF ts = <<"d">> \/ (Len(ts) = 2 /\ ts[1] \in {"i", "f", "s"} /\ ts[2] = "d") THEN "d" ELSE "err"
-      [] name \in {"abs", "floor", "ceil", "spread", "sigma"} -> IF ts = <<"f">> THEN "f" ELSE "err"
+      [] name \in {"abs", "floor", "ceil", "trunc", "spread", "sigma"} -> IF ts = <<"f">> THEN "f" ELSE "err"
       [] name \in {"min", "max"} -> IF ts = <<"f", "f">> THEN "f" ELSE "err"
       [] name = "if" -> IF Len(ts) = 3 /\ ts[1] = "b" /\ ts[2] = ts[3] /\ ts[2] \in {"f", "i", "s", "b", "r", "t", "d"} THEN ts[2] ELSE "err"
       [] name = "isPresent" -> one({"m", "b", "s", "i", "f"}, "b")
       [] name = "strLength" -> IF ts = <<"s">> THEN "i" ELSE "err"
       [] name = "strSubstring" -> IF ts = <<"s", "i", "i">> THEN "s" ELSE "err"
       [] name \in {"strContains", "strHasPrefix", "strHasSuffix"} -> IF ts = <<"s", "s">> THEN "b" ELSE "err"
-      [] name \in {"strIndex", "strLastIndex"} -> IF ts = <<"s", "s">> THEN "i" ELSE "err"
+      [] name \in {"strIndex", "strLastIndex", "strCount", "strIndexAny", "strLastIndexAny"} -> IF ts = <<"s", "s">> THEN "i" ELSE "err"
+      [] name = "strContainsAny" -> IF ts = <<"s", "s">> THEN "b" ELSE "err"
+      [] name \in {"strTrim", "strTrimLeft", "strTrimRight"} -> IF ts = <<"s", "s">> THEN "s" ELSE "err"
+      [] name = "strTrimSpace" -> IF ts = <<"s">> THEN "s" ELSE "err"
+      [] name = "mod" -> IF ts = <<"f", "f">> THEN "f" ELSE "err"
+      [] name \in {"day", "month", "year", "weekday"} -> IF ts = <<"t">> THEN "i" ELSE "err"
       [] name \in {"strToUpper", "strToLower"} -> IF ts = <<"s">> THEN "s" ELSE "err"
       [] name \in {"strTrimPrefix", "strTrimSuffix"} -> IF ts = <<"s", "s">> THEN "s" ELSE "err"
       [] name \in {"minute", "hour"} -> IF ts = <<"t">> THEN "i" ELSE "err"
